@@ -278,3 +278,382 @@ Section ReplayABC.
                 subst c'. exists a. auto.
   Qed.
 End ReplayABC.
+
+(* ---------- more about the common ancestor ---------- *)
+
+Lemma lca_in_subtrees isP t : In (lca_sub isP t) (subtrees t).
+Proof.
+  induction t as [n cs IH] using tree_ind'. rewrite lca_sub_node.
+  destruct (flat_map (lca_step isP) cs) as [|r [|r2 rest]] eqn:E; try apply subtrees_self.
+  destruct (lca_step_single isP cs r E) as [pre [c [post [E1 [_ [_ [_ E5]]]]]]]. subst r.
+  assert (Hc : In c cs) by (subst cs; apply in_or_app; right; left; reflexivity).
+  rewrite Forall_forall in IH. exact (subtrees_child n cs c _ Hc (IH c Hc)).
+Qed.
+
+Lemma present_tip_has_present isP t : forall x, In x (tips t) -> isP x = true -> has_present isP t = true.
+Proof.
+  induction t as [n cs IH] using tree_ind'. intros x Hx Hp. destruct cs as [|c0 cs0].
+  - cbn in Hx. destruct Hx as [E|[]]. subst. exact Hp.
+  - rewrite has_present_node. change (In x (flat_map tips (c0 :: cs0))) in Hx. apply in_flat_map in Hx.
+    destruct Hx as [c [Hc Hx]]. apply existsb_exists. exists c. split; [exact Hc|].
+    rewrite Forall_forall in IH. exact (IH c Hc x Hx Hp).
+Qed.
+
+(* every present tip of t lies below the common ancestor *)
+Lemma lca_covers isP t : forall x, In x (tips t) -> isP x = true -> In x (tips (lca_sub isP t)).
+Proof.
+  induction t as [n cs IH] using tree_ind'. intros x Hx Hp. rewrite lca_sub_node.
+  destruct (flat_map (lca_step isP) cs) as [|r [|r2 rest]] eqn:E; try exact Hx.
+  destruct (lca_step_single isP cs r E) as [pre [c [post [E1 [E2 [E3 [E4 E5]]]]]]]. subst r.
+  assert (Hc : In c cs) by (subst cs; apply in_or_app; right; left; reflexivity).
+  destruct cs as [|c0 cs0]; [destruct Hc|]. change (In x (flat_map tips (c0 :: cs0))) in Hx.
+  apply in_flat_map in Hx. destruct Hx as [c' [Hc' Hx]].
+  assert (Ecc : c' = c).
+  { rewrite E1 in Hc'. apply in_app_or in Hc'. destruct Hc' as [H|[H|H]]; [|auto|].
+    - rewrite Forall_forall in E2. assert (X := no_present_tips isP c' (E2 c' H) x Hx). congruence.
+    - rewrite Forall_forall in E3. assert (X := no_present_tips isP c' (E3 c' H) x Hx). congruence. }
+  subst c'. rewrite Forall_forall in IH. exact (IH c Hc x Hx Hp).
+Qed.
+
+Lemma tips_nonempty t : tips t <> [].
+Proof.
+  induction t as [n cs IH] using tree_ind'. destruct cs as [|c0 cs0]; [discriminate|].
+  change (flat_map tips (c0 :: cs0) <> []). cbn [flat_map]. inversion IH as [|y r Hy Hr]; subst.
+  destruct (tips c0); [contradiction|discriminate].
+Qed.
+
+(* ---------- the loss filling ---------- *)
+
+Section TD.
+  Variable pat : list (Z * Z).       (* recoded pattern *)
+  Let P := present_ge1 pat.
+  Let d := has_present P.
+
+  Lemma d_node n c cs : d (Node n (c :: cs)) = existsb d (c :: cs).
+  Proof. reflexivity. Qed.
+
+  Lemma fill_node_in p n e : In (n, e) (fill_node pat p) ->
+    exists c, In c (children p) /\ n = tname c /\ e = 0 /\ d c = false.
+  Proof.
+    unfold fill_node. destruct (forallb (fun b => b) (map (dstate pat) (children p)) || forallb negb (map (dstate pat) (children p)));
+      [intros []|].
+    intros H. apply in_flat_map in H. destruct H as [c [Hc H]]. exists c. split; [exact Hc|].
+    destruct (dstate pat c) eqn:E; [destruct H|]. destruct H as [E'|[]]. inversion E'. auto.
+  Qed.
+
+  Lemma fill_in w n e : In (n, e) (fill pat w) ->
+    exists p c, In p (subtrees w) /\ In c (children p) /\ n = tname c /\ e = 0 /\ d c = false.
+  Proof.
+    unfold fill. destruct (children w) as [|c0 cs0] eqn:Ech; [intros []|]. intros H.
+    apply in_flat_map in H. destruct H as [p [Hp H]].
+    assert (Hw : is_tip w = false) by (unfold is_tip; rewrite Ech; reflexivity).
+    apply (ordered_in w p Hw) in Hp. destruct (fill_node_in p n e H) as [c Hc]. exists p, c. tauto.
+  Qed.
+
+  Lemma fill_complete w : is_tip w = false ->
+    forall p c, In p (subtrees w) -> d p = true -> In c (children p) -> d c = false -> In (tname c, 0) (fill pat w).
+  Proof.
+    intros Hw p c Hp Hdp Hc Hdc. unfold fill. destruct (children w) as [|c0 cs0] eqn:Ech; [unfold is_tip in Hw; rewrite Ech in Hw; discriminate|].
+    apply in_flat_map. exists p. split.
+    - apply (ordered_in w p Hw). split; [exact Hp|]. unfold is_tip. destruct (children p); [destruct Hc|reflexivity].
+    - unfold fill_node.
+      assert (E1 : forallb (fun b => b) (map (dstate pat) (children p)) = false).
+      { apply not_true_is_false. intros X. rewrite forallb_forall in X.
+        assert (Y := X (dstate pat c) (in_map _ _ _ Hc)). unfold dstate in Y. fold P in Y. fold d in Y. congruence. }
+      assert (E2 : forallb negb (map (dstate pat) (children p)) = false).
+      { apply not_true_is_false. intros X. rewrite forallb_forall in X.
+        destruct p as [m [|c1 cs1]]; [destruct Hc|]. rewrite d_node in Hdp. apply existsb_exists in Hdp.
+        destruct Hdp as [c' [Hc' Hd']]. cbn [children] in X.
+        assert (Y := X (dstate pat c') (in_map _ _ _ Hc')). unfold dstate in Y. fold P in Y. fold d in Y.
+        rewrite Hd' in Y. discriminate. }
+      rewrite E1, E2. cbn [orb]. apply in_flat_map. exists c. split; [exact Hc|].
+      unfold dstate. fold P. fold d. rewrite Hdc. left. reflexivity.
+  Qed.
+
+  (* ---------- one queue element ---------- *)
+
+  Variable mode : Z.
+
+  Definition ev_ok (u : tree) (p : Z * Z) : Prop :=
+    exists a, In a (subtrees u) /\ tname a = fst p /\ ((snd p = 1 /\ d a = true) \/ (snd p = 0 /\ d a = false)).
+
+  Lemma tip_child_present c : is_tip c = true -> d c = P (tname c) /\ tips c = [tname c].
+  Proof. destruct c as [m [|c1 cs1]]; [intros _; split; reflexivity|discriminate]. Qed.
+
+  Lemma process_spec u k :
+    (forall p, In p (fst (process pat mode u k)) -> ev_ok u p) /\
+    (forall q, In q (snd (process pat mode u k)) -> In (fst q) (children u) /\ is_tip (fst q) = false) /\
+    (is_tip u = false -> forall x, In x (tips u) -> P x = true ->
+       (exists a, In a (subtrees u) /\ In x (tips a) /\ In (tname a, 1) (fst (process pat mode u k))) \/
+       (exists q, In q (snd (process pat mode u k)) /\ In x (tips (fst q)))).
+  Proof.
+    unfold process. change (tpresent pat) with P. change (has_present P) with d.
+    destruct (k >=? mode).
+    { destruct (d u) eqn:Edu; cbn [fst snd]; (split; [|split; [intros q []|]]).
+      - intros p [E|[]]. subst p. exists (lca_sub P u). split; [apply lca_in_subtrees|]. split; [reflexivity|].
+        left. split; [reflexivity|]. exact (lca_has_present P u Edu).
+      - intros _ x Hx Hp. left. exists (lca_sub P u). split; [apply lca_in_subtrees|].
+        split; [exact (lca_covers P u x Hx Hp)|left; reflexivity].
+      - intros p [E|[]]. subst p. exists u. split; [apply subtrees_self|]. split; [reflexivity|]. right. auto.
+      - intros _ x Hx Hp. exfalso. assert (X := no_present_tips P u Edu x Hx). congruence. }
+    set (commons := flat_map (fun c => if d c then tips (lca_sub P c) else []) (children u)).
+    destruct (subset commons (tips u) && subset (tips u) commons) eqn:Eset; cbn [fst snd].
+    { apply andb_true_iff in Eset. destruct Eset as [_ Hsub].
+      assert (Hdu : d u = true).
+      { unfold subset in Hsub. rewrite forallb_forall in Hsub.
+        destruct (tips u) as [|x0 xs] eqn:Et; [exfalso; exact (tips_nonempty u Et)|].
+        assert (Hm := Hsub x0 (or_introl eq_refl)). apply memz_spec in Hm. unfold commons in Hm.
+        apply in_flat_map in Hm. destruct Hm as [c [Hc Hm]]. destruct (d c) eqn:Edc; [|destruct Hm].
+        destruct u as [n [|c1 cs1]]; [destruct Hc|]. rewrite d_node. apply existsb_exists. exists c. auto. }
+      split; [|split; [intros q []|]].
+      - intros p [E|[]]. subst p. exists (lca_sub P u). split; [apply lca_in_subtrees|]. split; [reflexivity|].
+        left. split; [reflexivity|]. exact (lca_has_present P u Hdu).
+      - intros _ x Hx Hp. left. exists (lca_sub P u). split; [apply lca_in_subtrees|].
+        split; [exact (lca_covers P u x Hx Hp)|left; reflexivity]. }
+    set (tp := filter (fun c => is_tip c && P (tname c)) (children u)).
+    set (q := flat_map (fun c => if is_tip c then [] else [(c, k + 1)]) (children u)).
+    assert (Htp : forall c, In c tp -> In c (children u) /\ is_tip c = true /\ P (tname c) = true).
+    { intros c Hc. unfold tp in Hc. apply filter_In in Hc. destruct Hc as [H1 H2]. apply andb_true_iff in H2. tauto. }
+    split; [|split].
+    - intros p Hp. destruct (Nat.eqb (length tp) 2) eqn:E2.
+      + destruct Hp as [E|[]]. subst p. exists u. split; [apply subtrees_self|]. split; [reflexivity|]. left.
+        split; [reflexivity|]. destruct tp as [|c1 tp'] eqn:Etp; [discriminate|].
+        destruct (Htp c1 (or_introl eq_refl)) as [H1 [H2 H3]].
+        destruct u as [n [|c0 cs0]]; [destruct H1|]. rewrite d_node. apply existsb_exists. exists c1. split; [exact H1|].
+        rewrite (proj1 (tip_child_present c1 H2)). exact H3.
+      + apply in_map_iff in Hp. destruct Hp as [c [E Hc]]. subst p. destruct (Htp c Hc) as [H1 [H2 H3]].
+        exists c. split; [|split; [reflexivity|left; split; [reflexivity|]]].
+        * destruct u as [n cs]. exact (subtrees_child n cs c c H1 (subtrees_self c)).
+        * rewrite (proj1 (tip_child_present c H2)). exact H3.
+    - intros [c k'] Hq. unfold q in Hq. apply in_flat_map in Hq. destruct Hq as [c' [Hc' Hq]].
+      destruct (is_tip c') eqn:Et; [destruct Hq|]. destruct Hq as [E|[]]. inversion E; subst. cbn [fst]. auto.
+    - intros Hu x Hx Hp. destruct u as [n [|c0 cs0]]; [discriminate|]. cbn [children] in *.
+      change (In x (flat_map tips (c0 :: cs0))) in Hx. apply in_flat_map in Hx. destruct Hx as [c [Hc Hx]].
+      destruct (is_tip c) eqn:Et.
+      + left. destruct (tip_child_present c Et) as [_ Htips]. rewrite Htips in Hx. destruct Hx as [E|[]]. subst x.
+        assert (Hctp : In c tp). { unfold tp. apply filter_In. split; [exact Hc|]. rewrite Et, Hp. reflexivity. }
+        destruct (Nat.eqb (length tp) 2).
+        * exists (Node n (c0 :: cs0)). split; [apply subtrees_self|]. split; [|left; reflexivity].
+          apply (tips_child n (c0 :: cs0) c _ Hc). rewrite Htips. left. reflexivity.
+        * exists c. split; [exact (subtrees_child n _ c c Hc (subtrees_self c))|]. split; [rewrite Htips; left; reflexivity|].
+          apply in_map_iff. exists c. auto.
+      + right. exists (c, k + 1). split; [|exact Hx]. unfold q. apply in_flat_map. exists c. split; [exact Hc|].
+        rewrite Et. left. reflexivity.
+  Qed.
+End TD.
+
+(* ---------- the queue ---------- *)
+
+Section Queue.
+  Variable pat : list (Z * Z).
+  Variable mode : Z.
+  Let P := present_ge1 pat.
+  Let d := has_present P.
+
+  Definition qsize (queue : list (tree * Z)) : nat := list_sum (map (fun q => size (fst q)) queue).
+
+  Lemma qsize_app a b : qsize (a ++ b) = (qsize a + qsize b)%nat.
+  Proof. unfold qsize. rewrite map_app, list_sum_app. reflexivity. Qed.
+
+  Lemma qsize_cons u k rest : qsize ((u, k) :: rest) = (size u + qsize rest)%nat.
+  Proof. reflexivity. Qed.
+
+  Lemma size_pos t : (1 <= size t)%nat.
+  Proof. destruct t. cbn [size]. lia. Qed.
+
+  Lemma process_qsize u k : (qsize (snd (process pat mode u k)) < size u)%nat.
+  Proof.
+    unfold process. pose proof (size_pos u) as Hp.
+    destruct (k >=? mode); [cbn [snd]; unfold qsize; cbn [map]; change (list_sum []) with 0%nat; lia|].
+    match goal with |- context [if ?c then _ else _] => destruct c end;
+      [cbn [snd]; unfold qsize; cbn [map]; change (list_sum []) with 0%nat; lia|].
+    cbn [snd]. destruct u as [n cs]. cbn [children size].
+    assert (H : (qsize (flat_map (fun c => if is_tip c then [] else [(c, (k + 1)%Z)]) cs) <= list_sum (map size cs))%nat).
+    { clear Hp. induction cs as [|c cs IH]; [cbn; lia|]. cbn [flat_map map]. rewrite qsize_app.
+      change (list_sum (size c :: map size cs)) with (size c + list_sum (map size cs))%nat.
+      destruct (is_tip c).
+      - change (qsize []) with 0%nat. lia.
+      - change (qsize [(c, (k + 1)%Z)]) with (size c + 0)%nat. lia. }
+    lia.
+  Qed.
+
+  Lemma bfs_step f u k rest :
+    bfs (S f) pat mode ((u, k) :: rest) =
+    fst (process pat mode u k) ++ bfs f pat mode (rest ++ snd (process pat mode u k)).
+  Proof. reflexivity. Qed.
+
+  (* S1: every event of the queue phase is consistent with d and names a node of sub *)
+  Lemma bfs_ok sub fuel : forall queue,
+    (forall q, In q queue -> In (fst q) (subtrees sub)) ->
+    forall p, In p (bfs fuel pat mode queue) -> ev_ok pat sub p.
+  Proof.
+    induction fuel as [|f IH]; intros queue Hq p Hp; [destruct Hp|].
+    destruct queue as [|[u k] rest]; [destruct Hp|]. rewrite bfs_step in Hp.
+    destruct (process_spec pat mode u k) as [H1 [H2 _]].
+    assert (Hu : In u (subtrees sub)) by exact (Hq (u, k) (or_introl eq_refl)).
+    apply in_app_or in Hp. destruct Hp as [Hp|Hp].
+    - destruct (H1 p Hp) as [a [Ha Hrest]]. exists a. split; [exact (subtrees_trans sub u a Hu Ha)|exact Hrest].
+    - apply (IH (rest ++ snd (process pat mode u k))); [|exact Hp].
+      intros q Hin. apply in_app_or in Hin. destruct Hin as [Hin|Hin]; [apply Hq; right; exact Hin|].
+      destruct (H2 q Hin) as [Hc _]. destruct u as [n cs].
+      exact (subtrees_trans sub (Node n cs) (fst q) Hu (subtrees_child n cs (fst q) _ Hc (subtrees_self _))).
+  Qed.
+
+  (* S2: every present leaf below a queue element ends up below a gain *)
+  Lemma bfs_cover fuel : forall queue, (qsize queue < fuel)%nat ->
+    (forall q, In q queue -> is_tip (fst q) = false) ->
+    forall q x, In q queue -> In x (tips (fst q)) -> P x = true ->
+      exists a, In a (subtrees (fst q)) /\ In x (tips a) /\ In (tname a, 1) (bfs fuel pat mode queue).
+  Proof.
+    induction fuel as [|f IH]; intros queue Hsz Hint q x Hq Hx Hp; [lia|].
+    destruct queue as [|[u k] rest]; [destruct Hq|]. rewrite bfs_step.
+    destruct (process_spec pat mode u k) as [_ [H2 H3]].
+    assert (Hsz' : (qsize (rest ++ snd (process pat mode u k)) < f)%nat).
+    { rewrite qsize_app. pose proof (process_qsize u k). rewrite qsize_cons in Hsz. lia. }
+    assert (Hint' : forall q', In q' (rest ++ snd (process pat mode u k)) -> is_tip (fst q') = false).
+    { intros q' Hin. apply in_app_or in Hin. destruct Hin as [Hin|Hin]; [apply Hint; right; exact Hin|exact (proj2 (H2 q' Hin))]. }
+    destruct Hq as [E|Hq].
+    - subst q. cbn [fst] in *.
+      destruct (H3 (Hint (u, k) (or_introl eq_refl)) x Hx Hp) as [[a [Ha [Hxa Hg]]]|[q' [Hq' Hxq']]].
+      + exists a. split; [exact Ha|]. split; [exact Hxa|]. apply in_or_app. left. exact Hg.
+      + destruct (IH _ Hsz' Hint' q' x (in_or_app _ _ _ (or_intror Hq')) Hxq' Hp) as [a [Ha [Hxa Hg]]].
+        exists a. split; [|split; [exact Hxa|apply in_or_app; right; exact Hg]].
+        destruct (H2 q' Hq') as [Hc _]. destruct u as [n cs]. exact (subtrees_child n cs (fst q') a Hc Ha).
+    - destruct (IH _ Hsz' Hint' q x (in_or_app _ _ _ (or_introl Hq)) Hx Hp) as [a [Ha [Hxa Hg]]].
+      exists a. split; [exact Ha|]. split; [exact Hxa|]. apply in_or_app. right. exact Hg.
+  Qed.
+End Queue.
+
+(* ---------- the output: scenario plus fillings ---------- *)
+
+Section Out.
+  Variable pat : list (Z * Z).
+  Variable sub : tree.
+  Variable scenario : list (Z * Z).
+  Let P := present_ge1 pat.
+  Let d := has_present P.
+  Hypothesis Hd : NoDup (names sub).
+  Hypothesis S1 : forall p, In p scenario -> ev_ok pat sub p.
+  Hypothesis S2 : forall x, In x (tips sub) -> P x = true ->
+    exists a, In a (subtrees sub) /\ In x (tips a) /\ In (tname a, 1) scenario.
+
+  Definition fill_of (s : Z * Z) : list (Z * Z) :=
+    match find_node (fst s) sub with Some x => fill pat x | None => [] end.
+  Definition output : list (Z * Z) := flat_map (fun s => s :: fill_of s) scenario.
+
+  Lemma output_in p : In p output <-> exists s, In s scenario /\ (p = s \/ In p (fill_of s)).
+  Proof.
+    unfold output. rewrite in_flat_map. split; intros [s [Hs H]]; exists s; (split; [exact Hs|]).
+    - destruct H as [E|H]; [left; auto|right; exact H].
+    - destruct H as [E|H]; [left; auto|right; exact H].
+  Qed.
+
+  (* an event of a filling: a loss at a node of sub without d *)
+  Lemma fill_of_in s p : In s scenario -> In p (fill_of s) ->
+    exists c, In c (subtrees sub) /\ fst p = tname c /\ snd p = 0 /\ d c = false.
+  Proof.
+    intros Hs Hp. destruct (S1 s Hs) as [a [Ha [En _]]]. unfold fill_of in Hp. rewrite <- En in Hp.
+    rewrite (find_node_correct sub Hd a Ha) in Hp. destruct p as [n e].
+    destruct (fill_in pat a n e Hp) as [q [c [Hq [Hc [E1 [E2 E3]]]]]]. exists c. cbn [fst snd].
+    split; [|auto]. apply (subtrees_trans sub a c Ha). destruct q as [m cs]. cbn [children] in Hc.
+    exact (subtrees_trans a (Node m cs) c Hq (subtrees_child m cs c c Hc (subtrees_self c))).
+  Qed.
+
+  Lemma out_consistent : consistent_in pat output sub.
+  Proof.
+    intros u e Hu Hin. apply output_in in Hin. destruct Hin as [s [Hs [E|Hf]]].
+    - subst s. destruct (S1 _ Hs) as [a [Ha [En Hcase]]]. cbn [fst snd] in *.
+      assert (a = u) by exact (subtrees_name_unique sub Hd a u Ha Hu En). subst a. exact Hcase.
+    - destruct (fill_of_in s (tname u, e) Hs Hf) as [c [Hc [En [Ee Hdc]]]]. cbn [fst snd] in *.
+      assert (c = u) by exact (subtrees_name_unique sub Hd c u Hc Hu (eq_sym En)). subst c. right. auto.
+  Qed.
+
+  Lemma out_gain_filled : gain_filled pat output sub.
+  Proof.
+    intros a Ha Hg p c Hp Hdp Hc Hdc. apply output_in in Hg. destruct Hg as [s [Hs [E|Hf]]].
+    - subst s. apply output_in. exists (tname a, 1). split; [exact Hs|]. right.
+      unfold fill_of. cbn [fst]. rewrite (find_node_correct sub Hd a Ha).
+      assert (Htip : is_tip a = false).
+      { unfold is_tip. destruct a as [m [|a0 as0]]; [|reflexivity].
+        cbn [subtrees flat_map] in Hp. destruct Hp as [E|[]]. subst p. destruct Hc. }
+      exact (fill_complete pat a Htip p c Hp Hdp Hc Hdc).
+    - destruct (fill_of_in s (tname a, 1) Hs Hf) as [c' [_ [_ [E _]]]]. cbn in E. discriminate.
+  Qed.
+
+  Lemma out_gains_cover : gains_cover pat output sub.
+  Proof.
+    intros x Hx Hp. destruct (S2 x Hx Hp) as [a [Ha [Hxa Hg]]]. exists a. split; [exact Ha|]. split; [exact Hxa|].
+    apply output_in. exists (tname a, 1). auto.
+  Qed.
+
+  Lemma out_names p : In p output -> In (fst p) (names sub) /\ (snd p = 1 \/ snd p = 0).
+  Proof.
+    intros Hin. apply output_in in Hin. destruct Hin as [s [Hs [E|Hf]]].
+    - subst s. destruct (S1 _ Hs) as [a [Ha [En Hcase]]]. rewrite <- En. split.
+      + exact (subtrees_names sub a Ha _ (tname_in_names a)).
+      + destruct Hcase as [[E _]|[E _]]; auto.
+    - destruct (fill_of_in s p Hs Hf) as [c [Hc [En [Ee _]]]]. rewrite En. split; [|auto].
+      exact (subtrees_names sub c Hc _ (tname_in_names c)).
+  Qed.
+End Out.
+
+(* ---------- the theorem ---------- *)
+
+(* Guard: the common ancestor of the presences is an internal node (there are at least two
+   presences) or the restriction is 1.  PhyBo.get_GLS answers single-presence patterns itself;
+   called directly with a single presence and restriction >= 2 the method returns []. *)
+Theorem top_down_replays pat t mode md ev :
+  NoDup (names t) -> pattern_known pat t -> (md = 0 \/ md = -1) ->
+  (is_tip (lca_sub (present_ge1 (recode md pat)) t) = false \/ mode = 1) ->
+  top_down pat t mode md = Ok ev ->
+  reproduces md pat t ev.
+Proof.
+  intros Hd Hpk Hmd Hguard H. unfold top_down in H.
+  set (pat' := recode md pat) in *.
+  assert (Hk' : tips_known pat' t) by exact (tips_known_recode md pat t Hmd Hpk).
+  assert (Hext : forall n, In n (tips t) -> present_ge1 pat' n = is_present pat' n)
+    by exact (present_ge1_is_present pat' t Hk').
+  set (P := present_ge1 pat') in *. set (sub := lca_sub P t) in *.
+  destruct (has_present P t) eqn:Ehp; [|discriminate]. cbn [negb] in H. injection H as Hev.
+  assert (Esub : sub = lca_sub (is_present pat') t) by exact (lca_sub_ext_tips _ _ t Hext).
+  assert (Hksub : tips_known pat' sub).
+  { intros m Hm. apply Hk'. rewrite Esub in Hm. exact (tips_subset_lca _ t m Hm). }
+  assert (Hdsub : NoDup (names sub)) by (rewrite Esub; exact (NoDup_lca _ t Hd)).
+  assert (Hdsubp : has_present P sub = true) by exact (lca_has_present P t Ehp).
+  set (scenario := if mode =? 1 then [(tname sub, 1)] else bfs (S (size sub)) pat' mode [(sub, 1)]) in *.
+  assert (S1 : forall p, In p scenario -> ev_ok pat' sub p).
+  { intros p Hp. unfold scenario in Hp. destruct (mode =? 1).
+    - destruct Hp as [E|[]]. subst p. exists sub. split; [apply subtrees_self|]. split; [reflexivity|]. left. auto.
+    - apply (bfs_ok pat' mode sub (S (size sub)) [(sub, 1)]); [|exact Hp]. intros q [E|[]]. subst q. apply subtrees_self. }
+  assert (S2 : forall x, In x (tips sub) -> P x = true ->
+                 exists a, In a (subtrees sub) /\ In x (tips a) /\ In (tname a, 1) scenario).
+  { intros x Hx Hp. unfold scenario. destruct (Z.eqb_spec mode 1) as [E1|N1].
+    - exists sub. split; [apply subtrees_self|]. split; [exact Hx|left; reflexivity].
+    - destruct Hguard as [Hg|Hg]; [|contradiction].
+      apply (bfs_cover pat' mode (S (size sub)) [(sub, 1)]) with (q := (sub, 1)).
+      + rewrite qsize_cons. change (qsize []) with 0%nat. lia.
+      + intros q [E|[]]. subst q. exact Hg.
+      + left. reflexivity.
+      + exact Hx.
+      + exact Hp. }
+  change (output pat' sub scenario = ev) in Hev. subst ev.
+  assert (Hok : forallb (okb pat') (replay false (output pat' sub scenario) sub) = true).
+  { apply (replay_ABC pat' (output pat' sub scenario) sub Hdsub Hksub
+             (out_consistent pat' sub scenario Hdsub S1) (out_gain_filled pat' sub scenario Hdsub S1)).
+    split.
+    - intros Es. unfold node_state in Es.
+      destruct (lookup (tname sub) (output pat' sub scenario)) as [e|] eqn:El; [|discriminate].
+      assert (Hin := lookup_some_in _ _ _ El).
+      destruct (out_consistent pat' sub scenario Hdsub S1 sub e (subtrees_self _) Hin) as [[E D]|[E D]].
+      + subst e. split; [exact D|]. exact (out_gain_filled pat' sub scenario Hdsub S1 sub (subtrees_self _) Hin).
+      + subst e. cbn in Es. discriminate.
+    - intros _. exact (out_gains_cover pat' sub scenario S2). }
+  assert (Hnames := out_names pat' sub scenario Hdsub S1).
+  rewrite Esub in Hok, Hnames |- *.
+  split.
+  - intros p Hp. apply leaf_okb_spec. rewrite (leaf_okb_recode md pat p Hmd).
+    assert (Hall := whole_tree_ok pat' t _ Hd Hk' (fun q Hq => proj1 (Hnames q Hq)) Hok).
+    rewrite forallb_forall in Hall. exact (Hall p Hp).
+  - intros n e Hin. destruct (Hnames (n, e) Hin) as [Ha Hb]. split; [|exact Hb].
+    exact (lca_names_subset _ t n Ha).
+Qed.
